@@ -570,3 +570,9 @@ package cisco
 // (VRF names are case sensitive: PROD and prod are different VRFs).
 //vc:func dstOfRoute
 //vc:  ensures[C14,C02] @vrfNameTakenVerbatim result.vrf == "" || (exists k int :: 0 <= k && k < splitCount(c.parsed, " ") && result.vrf == splitPart(c.parsed, " ", k))
+
+// postprocessIOSACL: the words handed to the normaliser are the words behind
+// "permit" / "deny" - also for a line that carried a sequence number (the number
+// is removed first).
+//vc:func postprocessIOSACL
+//vc:  assert[C02] at "postprocessACLParts(c, parts, true)" @normalisedWordsFollowTheAction arg1 == tokens[1:] && arg2
